@@ -136,6 +136,16 @@ CHECKS = {
         note='Tuples are outside the documented argument type. CLI list spellings are judged in C13.',
         technique='TLA+ (TLC) model checking + trace validation of observed renamings',
         design_ref='3.2, 5 (C10)'),
+    'C05': dict(
+        specs='SuiteS.tla, Suite.tla, Trace_Suite.tla',
+        text='S = one rewrite step per documented option with its side condition over a 37-symbol statement alphabet in 16 contexts (Allowed = closure, non-empty '
+             'rule); M = the nine transformers as written, in pipeline order. TLC checks MOut in Allowed, off-means-untouched, non-emptiness and import order '
+             'for all blocks <= 2 (quick) / <= 3 (thorough) x relevant option subsets. Every enumerated case (quick 26 500, thorough 176 700) is concretised, '
+             'minified by the real code with exactly those options, the output suite is classified back into the alphabet and TLC checks membership in '
+             'Allowed plus equality of runs under optimize 0 and 1.',
+        note='AST-level Allowed relation + execution approximates the "bisimilar code" wording; the classifier is statement-local; one known finding (D20).',
+        technique='TLA+ (TLC) model checking of suite rewriting + replay of every enumerated case into the real transformers',
+        design_ref='3.3, 5 (C05)'),
     'C07': dict(
         specs='Fold.tla, Trace_Fold.tla',
         text='Decision structure of the folder (M) against the numeric tower and the property\'s rule (S: result type or exception per operator x '
